@@ -518,7 +518,7 @@ class SymtableCodeGen(AbstractCodeGen):
     # noinspection PyUnusedLocal
     def genSequence(self, data, classmode=False):
         cols = data[0]
-        self._cols.update(cols)
+        self._cols.update([(self.transOpers(name), syntax) for name, syntax in cols])
         return '', ''
 
     # noinspection PyUnusedLocal
